@@ -14,6 +14,7 @@ import (
 	"strconv"
 	"strings"
 	"sync"
+	"sync/atomic"
 	"testing"
 	"testing/synctest"
 	"time"
@@ -142,7 +143,7 @@ type World struct {
 	lastSec, lastSec2 string
 }
 
-func (w *World) nextSeq() uint64 { w.seq++; return w.seq }
+func (w *World) nextSeq() uint64 { return atomic.AddUint64(&w.seq, 1) }
 
 // seam is called at every interface through which the library leaves its own
 // code. It is a scheduling point and a fault site.
@@ -280,6 +281,14 @@ type simLogger struct{ w *World }
 
 func (l simLogger) Write(p []byte) (int, error) {
 	l.w.seam("log.write", "")
+	if cs, ok := l.w.sched.(*concSched); ok {
+		// concurrent mode: task-local log buffers (a shared, locked buffer
+		// would order every log line of every task for the race detector)
+		if t := cs.lookup(goid()); t != nil {
+			t.logs = append(t.logs, string(p))
+			return len(p), nil
+		}
+	}
 	l.w.mu.Lock()
 	l.w.Logs = append(l.w.Logs, string(p))
 	l.w.mu.Unlock()
@@ -365,10 +374,10 @@ func classifyMail(body string) (kind, token string) {
 		return strings.NewReplacer("%3D", "=", "%2B", "+", "%2F", "/").Replace(s)
 	}
 	switch {
-	case strings.Contains(body, "/confirm?cnf="):
-		return "confirm", find("/confirm?cnf=")
-	case strings.Contains(body, "/recover/end?token="):
-		return "recover", find("/recover/end?token=")
+	case strings.Contains(body, "confirm?cnf="):
+		return "confirm", find("confirm?cnf=")
+	case strings.Contains(body, "recover/end?token="):
+		return "recover", find("recover/end?token=")
 	case strings.Contains(body, "/email/verify/end?token="):
 		return "everify", find("/email/verify/end?token=")
 	}
